@@ -15,6 +15,10 @@ NA = {
 }
 
 CHECKS = {
+ "C17": dict(level="exploration", design="§5 C17",
+   text="Seeded search over C-API call histories (5-200 calls over 62 exported functions from a handle table with live values, survivors of freed contexts, NULL and odd primitives), with contexts freed under live handles and pending orders, responses released right after submission, collections injected between and inside calls, re-entrant / failing / NULL-returning native callbacks. Each history runs in a worker process natively and under AddressSanitizer: survival is the memory oracle; totality (error shapes for NULL / wrong-kind / misuse), validity and lifetime of returned strings, and a JSON model of host-built values as read back and as seen by scripts are checked inline; the H1 stale-dereference log must stay empty.",
+   note="Trusted: harness handle discipline (no double free, no use after free by the harness itself), ASan runtime, rustc nightly for the ASan build (absent ASan binary = native only, stated in evidence). The model is dropped wherever aliasing makes expected contents uncertain.",
+   technique="deterministic simulation: seeded API call histories with lifetime faults and injected collections, worker processes under ASan as memory oracle"),
  "C06": dict(level="exploration", design="§5 C06",
    text="Simulated host with a watchdog on the simulated clock (H3 instruction counter): generated programs and 13 unbounded loop/recursion templates on trampolined paths are stepped under seeded step and depth budgets; per step at most one VM instruction unless a native re-entered the VM (then a fixed bound), the budget stops the run, the interpreter stays usable. Resource faults are enumerated in worker processes: 10 allocation templates x 10 sizes up to 2^53 and 12 recursion call paths x 4 depths x 3 native stack sizes under a 4 GiB address-space cap; a dead worker is a violation unless the exact (template, parameter, stack) case is listed under a recorded finding.",
    note="Trusted: harness, ulimit, process exit status. Three recorded findings are architectural (native re-entry: unbounded step, native-stack overflow; unchecked allocation sizes); their cases are listed one by one in known_findings.json. A worker that hits the 8 s CPU limit inside one step is reported as SLOW, never as a death.",
